@@ -3,7 +3,7 @@ CFG = dict(
     dirs=["Common", "C09"], gen=True,
     run_targets=["C09/Run.vo"], proof_targets=["C09/Props.vo"], props="C09/Props.v",
     gen_obligations=[
-        "Inst.gen_c09_spec: tx_insert locks the inserted row, tx_update/tx_delete lock all matching rows before the change loop and record undo before changing, rollback applies the log in reverse and always releases, every transactional call starts with the is_active check",
+        "Inst.gen_c09_spec: tx_insert locks the inserted row, tx_update/tx_delete lock all matching rows before the change loop and record undo before changing, rollback applies the log in reverse and always releases, every transactional call starts with the is_active check, apply_undo_entry adds B-tree entries only for columns that have a B-tree index",
     ],
     crate="nvh_c09", shard=60,
     header=H + "From NV.Common Require Import LockTable.\nFrom NV.C09 Require Import Model Run.\nOpen Scope N_scope.",
@@ -20,6 +20,6 @@ CFG = dict(
     ],
 )
 MANIFEST = dict(
-    text="Rollback restores rows and both index kinds (undo is a left inverse, by induction on the log), commit keeps everything, a row changed by an open transaction cannot be changed by another until the lock is released or expires, locks vanish at the end of the transaction and finished transactions reject every call are Coq theorems over a model of the transactional API of RelationalEngine for all statement sequences; outside two recorded classes (rollback after a row lock expired and another transaction changed the row; an index created while a transaction had uncommitted changes). The model is compared call by call with the real engine, with index-path queries checked against the scan after every call.",
+    text="Coq theorems over a model of the transactional API of RelationalEngine, for all statement sequences: rollback puts every row back to the live content it had when the transaction began, row by row and for every interleaving that leaves that row alone (undo is a left inverse, by induction over the history); after any rollback-free history, and after a rollback outside the two recorded classes, every Eq/Lt/Ge/And query through a hash or B-tree index answers exactly like the scan (per-row completeness/exactness invariant of the index entries, undo chain argument); commit touches nothing; a statement never changes a row whose unexpired lock belongs to another transaction and is refused with LockConflict if it matches one; writers (including tx_insert) hold the locks of the rows they touched; locks are gone after commit/rollback; finished transactions answer TransactionNotFound forever. Two recorded classes are refuted by witness: rollback after a row lock expired and another writer changed the row; an index created while a transaction had uncommitted changes. The model is compared call by call with the real engine, with every index-path query checked against the scan after every call.",
     note="Trusted: Coq kernel, gen_C09.py, harness + driver, the clock hook. Modelled not verified: one two-column Int table, index id lists as sets, DashMap/RwLock atomicity.",
 )
